@@ -105,21 +105,64 @@ def private_class(limit):
     return type("RP", (Request,), {"request_body_tempfile_limit": limit})
 
 
+URLENC = "application/x-www-form-urlencoded"
+MP_BODY = (b'--B0\r\nContent-Disposition: form-data; name="a"\r\n\r\n1\r\n'
+           b'--B0\r\nContent-Disposition: form-data; name="b"\r\n\r\nx y\r\n--B0--\r\n')
+# CONTENT_TYPE texts -> (type without parameters, charset as webob detects it)
+CTYPES = {
+    URLENC: (URLENC, "UTF-8"),
+    URLENC + "; charset=UTF-8": (URLENC, "UTF-8"),
+    URLENC + '; charset="utf8"': (URLENC, "UTF-8"),
+    URLENC + "; charset=latin-1": (URLENC, "latin-1"),
+    "": ("", "UTF-8"),
+    None: ("", "UTF-8"),                       # no CONTENT_TYPE key at all
+    "application/json": ("application/json", "UTF-8"),
+    "text/plain; charset=iso-8859-1": ("text/plain", "iso-8859-1"),
+    "multipart/form-data; boundary=B0": ("multipart/form-data", "UTF-8"),
+}
+
+
+def cfg_form(cfg):
+    """does .POST parse the body (request.py:800-809), and with which charset"""
+    base, charset = CTYPES[cfg.get("ctype", URLENC)]
+    method = cfg.get("method", "POST")
+    form = not ((method != "POST" and not base) or base not in ("", URLENC, "multipart/form-data"))
+    return form, charset
+
+
+def make_class(cfg):
+    """the Request class for a case: Request or BaseRequest, class-level limit, optional make_tempfile override"""
+    import tempfile
+    import webob.request as wr
+    base = wr.BaseRequest if cfg.get("cls") == "base" else wr.Request
+    attrs = {"request_body_tempfile_limit": cfg["limit"]}
+    tf = cfg.get("tempfile")
+    if tf == "bytesio":
+        attrs["make_tempfile"] = lambda self: io.BytesIO()
+    elif tf == "spooled":
+        attrs["make_tempfile"] = lambda self: tempfile.SpooledTemporaryFile(max_size=7)
+    return type("RK", (base,), attrs)
+
+
 def make_request(cfg, cls=None):
-    """cfg: data(bytes) cl(None|str) seekable term(None|bool) legacy(bool) limit(int) [ctype] [method]"""
-    raw = SeekRaw(cfg["data"]) if cfg["seekable"] else Raw(cfg["data"])
+    """cfg: data(bytes) cl(None|str|int) seekable term(None|any) legacy(any) limit(int)
+    [ctype] [method] [stream: raw|bytesio] [cls: base] [tempfile: bytesio|spooled]"""
+    raw = SeekRaw(cfg["data"]) if (cfg["seekable"] or cfg.get("stream") == "bytesio") else Raw(cfg["data"])
     env = {"REQUEST_METHOD": cfg.get("method", "POST"), "SCRIPT_NAME": "", "PATH_INFO": "/", "SERVER_NAME": "h",
-           "SERVER_PORT": "80", "wsgi.url_scheme": "http", "SERVER_PROTOCOL": "HTTP/1.1", "wsgi.input": raw,
-           "CONTENT_TYPE": cfg.get("ctype", "application/x-www-form-urlencoded")}
+           "SERVER_PORT": "80", "wsgi.url_scheme": "http", "SERVER_PROTOCOL": "HTTP/1.1", "wsgi.input": raw}
+    if cfg.get("ctype", URLENC) is not None:
+        env["CONTENT_TYPE"] = cfg.get("ctype", URLENC)
     if cfg["cl"] is not None:
         env["CONTENT_LENGTH"] = cfg["cl"]
     if cfg["seekable"]:
         env["webob.is_body_seekable"] = True
     if cfg["term"] is not None:
         env["wsgi.input_terminated"] = cfg["term"]
-    if cfg["legacy"]:
-        env["webob.is_body_readable"] = True
-    return (cls or req_class(cfg["limit"]))(env), raw
+    if cfg["legacy"] not in (False, None):
+        env["webob.is_body_readable"] = cfg["legacy"]
+    if cls is None:
+        cls = make_class(cfg) if (cfg.get("cls") or cfg.get("tempfile")) else req_class(cfg["limit"])
+    return cls(env), raw
 
 
 class StubFS:
@@ -284,7 +327,7 @@ def coq_cfg(cfg):
     c = parse_cl(cfg["cl"])
     return "(%s, %s, %s, %s, %s, %s)" % (
         cbytes(cfg["data"]), copt(None if c is None else cZ(c)), cbool(cfg["seekable"]),
-        copt(None if cfg["term"] is None else cbool(bool(cfg["term"]))), cbool(cfg["legacy"]), cZ(cfg["limit"]))
+        copt(None if cfg["term"] is None else cbool(bool(cfg["term"]))), cbool(bool(cfg["legacy"])), cZ(cfg["limit"]))
 
 
 def coq_case2(cfg_a, cfg_b, hist, advs):
@@ -363,8 +406,13 @@ def cop(o, a):
 
 
 def parse_cl(s):
-    """what content_length returns for the CONTENT_LENGTH texts the generators use (plain integers)"""
-    return None if s is None or s == "" else int(s)
+    """what content_length returns (descriptors.parse_int_safe): int() with its leniency, None for anything else"""
+    if s is None or s == "":
+        return None
+    try:
+        return int(s)
+    except ValueError:
+        return None
 
 
 def coq_case(cfg, hist, advs):
@@ -373,11 +421,13 @@ def coq_case(cfg, hist, advs):
     c = parse_cl(cfg["cl"])
     return "(%s, %s, %s, %s, %s, %s, %s)" % (
         cbytes(cfg["data"]), copt(None if c is None else cZ(c)), cbool(cfg["seekable"]),
-        copt(None if cfg["term"] is None else cbool(bool(cfg["term"]))), cbool(cfg["legacy"]), cZ(cfg["limit"]), steps)
+        copt(None if cfg["term"] is None else cbool(bool(cfg["term"]))), cbool(bool(cfg["legacy"])), cZ(cfg["limit"]), steps)
 
 
 IN_TYPE = "(bytes * option Z * bool * option bool * bool * Z * list step)"
 FN = ("(fun c => match c with (s, cl0, sk, tm, lg, lim, hist) => run_obs %d s cl0 sk tm lg lim hist end)" % CHUNK)
+# the same for requests whose method / content type make .POST a no-op
+FN_NOFORM = ("(fun c => match c with (s, cl0, sk, tm, lg, lim, hist) => run_obs_form %d false s cl0 sk tm lg lim hist end)" % CHUNK)
 
 
 def jcfg(cfg):
@@ -438,6 +488,43 @@ def rand_cfg(rng, maxlen, seekable=None):
     return {"data": data, "cl": cl, "seekable": seekable, "term": term, "legacy": legacy, "limit": limit}
 
 
+TERM_VALUES = [True, 1, "yes", [0]]          # anything truthy marks the input as terminated
+UNTERM_VALUES = [False, 0, "", []]
+
+
+def add_knobs(rng, cfg, corr=False):
+    """vary the configuration the body code reads beyond the defaults: truthy/falsy non-bool flags, CONTENT_LENGTH as
+    int / lenient text / garbage, method and content type (with charset), a plain BytesIO without the seekable flag,
+    BaseRequest instead of Request, make_tempfile overridden"""
+    n = len(cfg["data"])
+    if cfg["term"] is not None and rng.random() < 0.5:
+        cfg["term"] = rng.choice(TERM_VALUES if cfg["term"] else UNTERM_VALUES)
+    if cfg["legacy"] and rng.random() < 0.5:
+        cfg["legacy"] = rng.choice([1, "x"])
+    u = rng.random()
+    c = parse_cl(cfg["cl"])
+    if c is not None and u < 0.12:
+        cfg["cl"] = c                                        # an int in the environ (as the repo's own tests do)
+    elif c is not None and u < 0.20:
+        cfg["cl"] = rng.choice([" %d", "%d ", "+%d", "0%d"]) % c if c >= 0 else cfg["cl"]
+    elif u < 0.26 and not cfg["seekable"]:
+        cfg["cl"] = rng.choice(["abc", "5.0", "1e2", "0x10", "--1", "12a"])      # not a number: as if absent
+    if rng.random() < 0.35:
+        cfg["method"] = rng.choice(["POST", "POST", "PUT", "GET", "HEAD", "PATCH", "WTF"])
+        cts = [k for k in CTYPES if not (corr and CTYPES[k][1] != "UTF-8")]
+        cfg["ctype"] = rng.choice(cts)
+        if cfg["ctype"] and cfg["ctype"].startswith("multipart") and not cfg["seekable"] and rng.random() < 0.8:
+            cfg["data"] = MP_BODY + rand_bytes(rng, rng.choice([0, 0, 3]))
+            cfg["cl"] = str(len(MP_BODY))
+    if not cfg["seekable"] and rng.random() < 0.15:
+        cfg["stream"] = "bytesio"
+    if rng.random() < 0.15:
+        cfg["cls"] = "base"
+    if not corr and rng.random() < 0.2:
+        cfg["tempfile"] = rng.choice(["bytesio", "spooled"])
+    return cfg
+
+
 def rand_size(rng, n):
     return rng.choice([None, None, 0, 1, 1, 2, 3, 5, max(0, n // 2), max(0, n - 1), n, n + 1, n + 7, 8191, 8192, 8193])
 
@@ -468,6 +555,7 @@ class SReq:
         # while the request still sits on a server stream: its whole content, the declared length, and how far an
         # unterminated/terminated input has been consumed (needed when the environ's flags are flipped mid-history)
         self.stream, self.cl, self.spos = stream, cl, 0
+        self.charset = "UTF-8"
 
     def conv(self):
         """make the body seekable; False = DisconnectionError"""
@@ -496,6 +584,12 @@ DISC = fw.Err("D")
 
 
 def spec_init(cfg):
+    r = spec_init0(cfg)
+    r.form, r.charset = cfg_form(cfg) if "data" in cfg and ("ctype" in cfg or "method" in cfg) else (True, "UTF-8")
+    return r
+
+
+def spec_init0(cfg):
     s, c = cfg["data"], parse_cl(cfg["cl"])
     flag = cfg["term"] if cfg["term"] is not None else cfg["legacy"]
     if cfg["seekable"]:
@@ -520,6 +614,12 @@ def spec_reflag(s, flag):
 
 
 def spec_unseek(s):
+    r = spec_unseek0(s)
+    r.charset = s.charset
+    return r
+
+
+def spec_unseek0(s):
     """webob.is_body_seekable switched off on a held body whose file is at position 0: from now on the
     file is treated like a server stream holding exactly the body"""
     b = s.body
@@ -555,6 +655,7 @@ def spec_step(ss, i, o, a):
             return [DISC]
         s.cur = len(s.body)
         ss.append(SReq(s.body, 0, "held", False, s.form))
+        ss[-1].charset = s.charset
         return [1]
     if o == "copy_get":
         ss.append(SReq(b"", 0, "held", False, False))
@@ -562,6 +663,8 @@ def spec_step(ss, i, o, a):
     if o == "post":
         if s.post or not s.form:
             return [2]
+        if s.charset != "UTF-8":
+            return [fw.Err("DeprecationWarning")]      # _check_charset: the documented refusal, before anything is read
         if not s.conv():
             return [DISC]
         s.cur, s.post = 0, True
@@ -573,7 +676,15 @@ def spec_step(ss, i, o, a):
         return [s.body]
     if o == "setbody":
         ss[i] = SReq(a, 0, "held", False, s.form)
+        ss[i].charset = s.charset
         return [b""]
+    if o == "make_seekable":
+        return [None] if s.conv() else [DISC]
+    if o == "copy_body":
+        if s.mode == "held":
+            s.cur, s.post = 0, False         # a new file with the same bytes
+            return [None]
+        return [None] if s.conv() else [DISC]
     raise ValueError(o)
 
 
@@ -595,6 +706,7 @@ def spec_resolve(ss, i, o, a, acc, got):
 
 # =========================================================================== the oracle on the real API
 HANDLE_OPS = ("freadline", "fread1", "freadinto", "fiter")
+READ_OPS = ("body", "fread", "sread", "copy", "post", "app", "asbytes", "gettext", "make_seekable", "copy_body") + HANDLE_OPS
 
 
 def ref_readline(rest, k):
@@ -679,6 +791,15 @@ class Run:
         self.ss = [spec_init(cfg)]
         self.k = 0
 
+    @classmethod
+    def from_request(cls_, req, sreq, cfg, raw=None, tag=""):
+        """a world around a request built by the caller (constructor keywords, Request.blank, from_bytes ...)"""
+        import webob.request as wr
+        run = cls_.__new__(cls_)
+        run.DE, run.cfg, run.tag, run.cls = wr.DisconnectionError, cfg, tag, type(req)
+        run.slots, run.ss, run.k = [Slot(req, raw, None)], [sreq], 0
+        return run
+
     def finish(self):
         for j in range(len(self.slots) + 1):
             res = self.step(j, "body", None, None, final=True)
@@ -698,8 +819,15 @@ class Run:
         raw = slot.raw
         pos_before = raw.tell_() if raw is not None else 0
         # the original request, still on a stream whose declared length is negative
-        neg = raw is not None and not slot.seek_orig and c_now is not None and c_now < 0 and s.mode == "none"
+        neg = raw is not None and not slot.seek_orig and c_now is not None and c_now < 0 and s.mode == "none" and \
+            o in READ_OPS
         new = None
+        refusal = None
+        if o == "settext":
+            try:
+                a.encode(s.charset)
+            except UnicodeEncodeError:
+                refusal = "UnicodeEncodeError"
         try:
             if o == "body":
                 got = r.body
@@ -748,6 +876,55 @@ class Run:
                 # class-level state changed between accesses: no answer may depend on it
                 self.cls.request_body_tempfile_limit = a
                 return None
+            elif o == "setlimit_inst":
+                r.request_body_tempfile_limit = a          # ... nor on an instance-level override
+                return None
+            elif o == "setreadable":
+                r.is_body_readable = a                     # the public setter of wsgi.input_terminated
+                spec_reflag(s, slot.flag())
+                return None
+            elif o == "setbody_none":
+                r.body = None
+                got = b""
+            elif o == "delbody":
+                del r.body
+                got = b""
+            elif o == "delfile":
+                del r.body_file
+                got = b""
+            elif o == "deltext":
+                del r.text
+                got = b""
+            elif o == "deljson":
+                del r.json
+                got = b""
+            elif o == "badset":
+                refusal = {"body-str": "TypeError", "body-bytearray": "TypeError", "body-int": "TypeError",
+                           "text-bytes": "TypeError", "file-bytes": "ValueError"}[a]
+                if a == "body-str":
+                    r.body = "text"
+                elif a == "body-bytearray":
+                    r.body = bytearray(b"xy")
+                elif a == "body-int":
+                    r.body = 5
+                elif a == "text-bytes":
+                    r.text = b"xy"
+                else:
+                    r.body_file = b"xy"
+                got = "accepted"
+            elif o == "make_seekable":
+                r.make_body_seekable()
+                got = None
+            elif o == "copy_body":
+                r.copy_body()
+                got = None
+            elif o == "asbytes":
+                got = r.as_bytes()
+            elif o == "gettext":
+                try:
+                    got = r.text
+                except UnicodeDecodeError:
+                    got = "\x00undecodable"
             elif o == "flag":
                 # the environ's flags flipped mid-history (a = [name, value]; value None deletes the key)
                 name, val = a
@@ -783,7 +960,7 @@ class Run:
                 ncfg = {"data": data, "cl": None if cl is None else str(cl), "seekable": False,
                         "term": slot.env.get("wsgi.input_terminated"), "legacy": bool(slot.env.get("webob.is_body_readable"))}
                 ns = spec_init(ncfg)
-                ns.form = s.form
+                ns.form, ns.charset = s.form, s.charset
                 ss[i] = ns
                 slot.raw, slot.seek_orig, slot.pos0 = nraw, False, 0
                 return None
@@ -808,11 +985,39 @@ class Run:
             if c_now is None and not flag_now and pos > pos_before:
                 return ("overread:no-content-length", "%s: %d bytes pulled from wsgi.input although there is neither "
                         "CONTENT_LENGTH nor wsgi.input_terminated" % (where, pos - pos_before))
-        if isinstance(got, fw.Err) and got != DISC:
+        if refusal is not None:
+            # a documented refusal: the exception, and nothing changed (the closing .body checks the state)
+            if got == fw.Err(refusal):
+                return None
+            return ("%s:%s:not-refused" % (o, a if o == "badset" else refusal), "%s: expected %s, got %s" % (where, refusal, short_repr(got)))
+        if isinstance(got, fw.Err) and got != DISC and not (o == "post" and got.name == "DeprecationWarning"):
             return (NEG_KEY if neg else "%s:exception:%s" % (o, got.name), "%s raised %s" % (where, got.name))
         # ---- the answer
-        if o in ("settext", "setjson"):
-            b = a.encode("utf-8") if o == "settext" else json.dumps(a, separators=(",", ":")).encode("utf-8")
+        if o in ("fread", "sread") and a is not None and a < 0:
+            a = None                                       # read(-1) is read()
+        if o in ("setbody_none", "delbody", "delfile", "deltext", "deljson"):
+            acc = spec_step(ss, i, "setbody", b"")
+            o = "setbody"
+        elif o == "asbytes":
+            if s.mode == "none":
+                acc, got = [b""], (b"" if isinstance(got, bytes) and not got.endswith(b"\r\n\r\n") else got)
+            else:
+                acc = spec_step(ss, i, "body", None)
+                if isinstance(got, bytes) and isinstance(acc[0], bytes):
+                    b = acc[0]
+                    got = b if (got.endswith(b"\r\n\r\n" + b) if b else True) else b"\x00as_bytes does not end with the body: " + got[-40:]
+            o = "body"
+        elif o == "gettext":
+            acc = spec_step(ss, i, "body", None)
+            if isinstance(acc[0], bytes) and isinstance(got, str):
+                try:
+                    want = acc[0].decode(s.charset)
+                except UnicodeDecodeError:
+                    want = "\x00undecodable"
+                got = acc[0] if got == want else b"\x00text differs: " + got.encode("utf-8", "replace")[:40]
+            o = "body"
+        elif o in ("settext", "setjson"):
+            b = a.encode(s.charset) if o == "settext" else json.dumps(a, separators=(",", ":")).encode(s.charset)
             acc = spec_step(ss, i, "setbody", b)
         elif o in HANDLE_OPS:
             if s.mode == "none":
@@ -852,7 +1057,18 @@ class Run:
         if o == "post" and isinstance(acc[0], bytes):
             if got == DISC or not isinstance(got, list):
                 return (classify(cfg, o, got, acc, neg), "%s gave %r, expected the form fields of the %d-byte body" % (where, got, len(acc[0])))
-            if is_ascii_form(acc[0]) and got != ref_form(acc[0]):
+            if cfg.get("ctype", URLENC) == "":
+                # an EMPTY Content-Type header: cgi.FieldStorage reads the body as one unnamed value, no fields
+                if got != []:
+                    return ("post:wrong-fields", "%s parsed %r with an empty Content-Type" % (where, got))
+            elif cfg.get("method") in ("GET", "HEAD"):
+                # cgi.FieldStorage takes the fields of a GET/HEAD request from QUERY_STRING (emptied by webob), not from
+                # the body: the body is still captured, the field list is empty
+                if got != []:
+                    return ("post:wrong-fields", "%s parsed %r for a %s request" % (where, got, cfg["method"]))
+            elif acc[0] == MP_BODY and got != [["a", "1"], ["b", "x y"]]:
+                return ("post:wrong-fields", "%s parsed %r from the multipart body" % (where, got))
+            elif is_ascii_form(acc[0]) and CTYPES[cfg.get("ctype", URLENC)][0] != "multipart/form-data" and got != ref_form(acc[0]):
                 return ("post:wrong-fields", "%s parsed %r, the body %r holds %r" % (where, got, acc[0][:60], ref_form(acc[0])))
             ok = True
         elif o == "post" and acc == [2]:
@@ -907,6 +1123,161 @@ def oracle_two(cfg_a, hist_a, cfg_b, hist_b, order, shared_class=True):
     return None
 
 
+SHAPES = ["ctor-body", "base-ctor-body", "ctor-body-none", "blank-POST-bytes", "blank-POST-str", "blank-POST-dict",
+          "blank-POST-list", "blank-POST-multidict", "blank-body", "blank-body-put", "blank-environ", "from-bytes",
+          "from-file-trailing"]
+
+
+def oracle_shape(shape, b, hist, via=None):
+    """the ways of GIVING a request its body at construction: whatever the shape, the body is exactly what was given,
+    CONTENT_LENGTH is its length, and every access path afterwards behaves as on a held body"""
+    from urllib.parse import urlencode
+    import webob.request as wr
+    from webob.multidict import MultiDict
+    Request, BaseRequest = wr.Request, wr.BaseRequest
+    try:
+        return _oracle_shape(shape, b, hist, via)
+    except Exception as e:  # noqa
+        return ("construct:exception:%s" % type(e).__name__, "%s with a %d-byte body raised %s" % (shape, len(b), type(e).__name__))
+
+
+def _oracle_shape(shape, b, hist, via=None):
+    from urllib.parse import urlencode
+    import webob.request as wr
+    from webob.multidict import MultiDict
+    Request, BaseRequest = wr.Request, wr.BaseRequest
+    pairs = [("a", "1"), ("b", "x y"), ("a", "\xe9")]
+    raw, body, method, ctype, extra = None, b, "POST", URLENC, None
+    if shape in ("ctor-body", "base-ctor-body", "ctor-body-none"):
+        raw = Raw(b"server-stream-that-must-not-be-touched")
+        env = {"REQUEST_METHOD": "POST", "SCRIPT_NAME": "", "PATH_INFO": "/", "SERVER_NAME": "h", "SERVER_PORT": "80",
+               "wsgi.url_scheme": "http", "SERVER_PROTOCOL": "HTTP/1.1", "wsgi.input": raw, "CONTENT_LENGTH": "12",
+               "CONTENT_TYPE": URLENC}
+        if shape == "ctor-body-none":
+            body = b""
+            r = Request(env, body=None)
+        else:
+            r = (BaseRequest if shape.startswith("base") else Request)(env, body=b)
+    elif shape == "blank-POST-bytes":
+        r = Request.blank("/", POST=b)
+    elif shape == "blank-POST-str":
+        body = b.decode("latin-1").encode("ascii", "replace")
+        r = Request.blank("/", POST=body.decode("ascii"))
+    elif shape in ("blank-POST-dict", "blank-POST-list", "blank-POST-multidict"):
+        arg = {"blank-POST-dict": dict(pairs), "blank-POST-list": list(pairs), "blank-POST-multidict": MultiDict(pairs)}[shape]
+        body = urlencode(list(arg.items()) if hasattr(arg, "items") else arg).encode("ascii")
+        r = Request.blank("/", POST=arg)
+    elif shape == "blank-body":
+        r = Request.blank("/", body=b)
+        method, ctype = "GET", None
+    elif shape == "blank-body-put":
+        r = Request.blank("/", method="PUT", body=b, content_type="text/plain")
+        method, ctype = "PUT", "text/plain; charset=iso-8859-1"
+    elif shape == "blank-environ":
+        r = Request.blank("/", environ={"wsgi.input": SeekRaw(b), "CONTENT_LENGTH": str(len(b)), "REQUEST_METHOD": "POST"})
+        ctype = None
+    else:
+        head = b"POST /x HTTP/1.0\r\nContent-Length: %d\r\nContent-Type: %s\r\n\r\n" % (len(b), URLENC.encode())
+        if shape == "from-bytes":
+            r = Request.from_bytes(head + b)
+        else:
+            fp = io.BytesIO(head + b + b"NEXT REQUEST")
+            r = Request.from_file(fp)
+            if fp.tell() != len(head) + len(b):
+                return ("from_file:overread", "Request.from_file left the file at %d, the request ends at %d" % (fp.tell(), len(head) + len(b)))
+    cfg = {"seekable": True, "cl": str(len(body)), "data": body, "method": method, "ctype": ctype, "term": None,
+           "legacy": False, "limit": 10240}
+    if shape == "blank-body-put":
+        cfg["ctype"] = "text/plain; charset=iso-8859-1"     # only the form gate matters: text/plain is not a form
+    if r.content_length != len(body):
+        return ("construct:content-length", "%s: CONTENT_LENGTH is %r for a %d-byte body" % (shape, r.content_length, len(body)))
+    sreq = SReq(body, 0, "held")
+    sreq.form = cfg_form(cfg)[0]
+    run = Run.from_request(r, sreq, cfg, None, shape + ": ")
+    for k, (i, o, a) in enumerate(hist):
+        res = run.step(i, o, a, via[k] if via else None)
+        if res:
+            return res
+    res = run.finish()
+    if res is None and raw is not None and raw.pos != 0:
+        return ("construct:server-stream-touched", "%s: %d bytes were pulled from the wsgi.input that body= replaced" % (shape, raw.pos))
+    return res
+
+
+class ShortRaw(Raw):
+    """a stream OUTSIDE the modelled domain: read(n) may return fewer than n bytes although more will come"""
+
+    def __init__(self, data, sizes):
+        super().__init__(data)
+        self.sizes = list(sizes)
+
+    def read(self, n=-1):
+        if n is None or n < 0:
+            return super().read(n)
+        k = self.sizes.pop(0) if self.sizes else n
+        return super().read(min(n, max(1, k)) if n else 0)
+
+
+def oracle_short_reads(data, cl, sizes, hist):
+    """Outside the model's domain (wsgi.input.read(n) returning fewer than n bytes before EOF).  What stays
+    meaningful: never more than CONTENT_LENGTH bytes pulled, whatever is returned is the right continuation of the
+    body, nothing but DisconnectionError is raised, and after a successful .body the body is held and repeatable."""
+    import webob.request as wr
+    raw = ShortRaw(data, sizes)
+    env = {"REQUEST_METHOD": "POST", "SCRIPT_NAME": "", "PATH_INFO": "/", "SERVER_NAME": "h", "SERVER_PORT": "80",
+           "wsgi.url_scheme": "http", "SERVER_PROTOCOL": "HTTP/1.1", "wsgi.input": raw, "CONTENT_LENGTH": str(cl),
+           "CONTENT_TYPE": URLENC}
+    r = wr.Request(env)
+    body = data[:cl]
+    cur, held, dead = 0, None, False
+    for k, (o, a) in enumerate(hist):
+        try:
+            if o == "fread":
+                got = r.body_file.read() if a is None else r.body_file.read(a)
+            elif o == "body":
+                got = r.body
+            elif o == "sread":
+                got = r.body_file_seekable.read()
+            else:
+                got = r.copy().body
+        except wr.DisconnectionError:
+            got = DISC
+        except Exception as e:  # noqa
+            return ("short-reads:exception:%s" % type(e).__name__, "step %d %s raised %s" % (k, o, type(e).__name__))
+        if raw.pos > max(cl, 0):
+            return ("short-reads:overread", "step %d %s(%r): %d bytes pulled, CONTENT_LENGTH=%d" % (k, o, a, raw.pos, cl))
+        if got == DISC:
+            # a short read is taken for a disconnection: bytes already pulled are dropped, the stream is given up
+            dead = dead or held is None
+            continue
+        if dead and held is None:
+            if o != "fread" and got:
+                return ("short-reads:body-after-disconnect", "step %d %s returned %s after a DisconnectionError had "
+                        "dropped part of the stream" % (k, o, short_repr(got)))
+            continue
+        if held is not None:
+            if o == "fread":
+                want = held[cur:] if a is None else held[cur:cur + a]
+                cur += len(want)
+            elif o == "sread":
+                want = held[cur:]
+                cur = len(held)
+            else:
+                want = held
+                cur = len(held) if o == "copy" else 0
+            if got != want:
+                return ("short-reads:wrong-bytes", "step %d %s(%r) on the held body returned %s, expected %s" % (k, o, a, short_repr(got), short_repr(want)))
+        elif o == "fread":
+            if not body[cur:].startswith(got):
+                return ("short-reads:wrong-bytes", "step %d fread(%r) returned %s, the body continues %s" % (k, a, short_repr(got), short_repr(body[cur:cur + 40])))
+            cur += len(got)
+        else:
+            if got != body or cur != 0 and got:
+                return ("short-reads:wrong-bytes", "step %d %s returned %s, the body is %s" % (k, o, short_repr(got), short_repr(body)))
+            held, cur = got, (len(got) if o in ("sread", "copy") else 0)
+    return None
+
+
 def short_repr(v):
     if isinstance(v, bytes) and len(v) > 32:
         return "%d bytes %r..." % (len(v), v[:16])
@@ -938,6 +1309,27 @@ def oracle_seekable_any(cfg):
                 path, len(cfg["data"]), cfg["cl"], short_repr(got), short_repr(want)))
         if raw.hwm > max(c, 0) and path != "copy":
             return ("overread:seekable-input", "%s read up to offset %d of a seekable input with CONTENT_LENGTH=%s" % (path, raw.hwm, cfg["cl"]))
+    # outside the claimed domain (handles on a seekable input of another length): what remains meaningful is that the
+    # handle IS the input file (documented: "body_file ... wsgi.input"), nothing raises, and what is read is the file's content
+    for path in ("body_file", "body_file_seekable", "post", "app"):
+        r, raw = make_request(cfg)
+        try:
+            if path in ("body_file", "body_file_seekable"):
+                f = getattr(r, path)
+                if f is not raw:
+                    return ("%s:seekable-input-not-handed-out" % path, "%s is not the seekable wsgi.input itself" % path)
+                got = f.read(3) + f.read()
+                if got != cfg["data"]:
+                    return ("%s:wrong-bytes:seekable-input" % path, "%s.read() returned %s" % (path, short_repr(got)))
+            elif path == "post":
+                r.POST
+            else:
+                got = b"".join(r.call_application(app_reader)[2])[1:]
+                if got != cfg["data"][:c]:
+                    return ("app:wrong-bytes:seekable-input", "the application read %s" % short_repr(got))
+        except Exception as e:  # noqa
+            return ("%s:exception:%s:seekable-input" % (path, type(e).__name__), "%s raised %s on a seekable %d-byte input with "
+                    "CONTENT_LENGTH=%s" % (path, type(e).__name__, len(cfg["data"]), cfg["cl"]))
     return None
 
 
@@ -964,8 +1356,10 @@ def rand_xhist(rng, cfg, depth):
     return out
 
 
-SOPS = XOPS + ["setlimit", "flag", "newinput"]
-SWEIGHTS = XWEIGHTS + [2, 4, 3]
+SHAPE_OPS = ["setbody_none", "delbody", "delfile", "deltext", "deljson", "badset", "make_seekable", "copy_body",
+             "asbytes", "gettext", "setreadable", "setlimit_inst"]
+SOPS = XOPS + ["setlimit", "flag", "newinput"] + SHAPE_OPS
+SWEIGHTS = XWEIGHTS + [2, 4, 3] + [1, 1, 1, 1, 1, 2, 2, 3, 2, 2, 2, 1]
 
 
 def rand_via(rng, n):
@@ -991,6 +1385,14 @@ def rand_shist(rng, cfg, depth):
                             ["seekable", False], ["seekable", False]])
         elif o == "newinput":
             a = rand_newinput(rng)
+        elif o == "badset":
+            a = rng.choice(["body-str", "body-bytearray", "body-int", "text-bytes", "file-bytes"])
+        elif o == "setreadable":
+            a = rng.choice([True, False, 1, 0])
+        elif o == "setlimit_inst":
+            a = rng.choice([-1, 0, 2, 10240])
+        elif o in ("fread", "sread") and a is None and rng.random() < 0.5:
+            a = -1
         out.append((i, o, a))
     n = len(cfg["data"])
     fixed = []
@@ -1039,6 +1441,14 @@ def exhaustive_cfgs(full):
                 cfgs.append({"data": data, "cl": cl, "seekable": False, "term": term, "legacy": False, "limit": limit})
     cfgs.append({"data": data, "cl": "10", "seekable": True, "term": None, "legacy": False, "limit": 2})
     cfgs.append({"data": data, "cl": None, "seekable": False, "term": None, "legacy": True, "limit": 10240})
+    # non-default configurations: truthy non-bool flag, CONTENT_LENGTH as int, a PUT without content type on BaseRequest,
+    # a non-UTF-8 form charset, make_tempfile overridden
+    cfgs.append({"data": data, "cl": None, "seekable": False, "term": "yes", "legacy": False, "limit": 2, "stream": "bytesio"})
+    cfgs.append({"data": data, "cl": 10, "seekable": False, "term": 0, "legacy": False, "limit": 2, "method": "PUT",
+                 "ctype": None, "cls": "base"})
+    if full:
+        cfgs.append({"data": data, "cl": " 10", "seekable": False, "term": None, "legacy": "x", "limit": 2,
+                     "ctype": URLENC + "; charset=latin-1", "tempfile": "spooled"})
     return cfgs
 
 
@@ -1115,10 +1525,14 @@ ORACLE_ONLY = [
 ]
 
 
-def corr_cases(ctx, rng, n, maxlen, depth):
+def corr_cases(ctx, rng, n, maxlen, depth, knobs=False, form=True):
     cases = []
     for _ in range(n):
         cfg = rand_cfg(rng, maxlen)
+        if knobs:
+            cfg = add_knobs(rng, cfg, corr=True)
+            if cfg_form(cfg)[0] != form:
+                cfg["method"], cfg["ctype"] = ("POST", URLENC) if form else ("GET", "application/json")
         hist = rand_hist(rng, cfg, rng.randrange(1, depth + 1))
         # half of the histories are executed through several Request wrappers (long-lived and brand-new) over the one
         # environ: the model has no per-wrapper state, so its answer must be the same
@@ -1141,12 +1555,16 @@ def report(ctx, res, cfg, hist, source, via=None):
     ctx.fail(key, msg, {"kind": "history", "cfg": jcfg(cfg), "hist": jhist(hist), "via": via}, True, source)
 
 
-def consistent_cfg(rng, maxlen):
+def consistent_cfg(rng, maxlen, knobs=True):
     cfg = rand_cfg(rng, maxlen)
     if cfg["seekable"]:
         cfg["cl"] = str(len(cfg["data"]))
     if rng.random() < 0.6:
         cfg["data"] = form_bytes(rng, len(cfg["data"]))
+    if knobs and rng.random() < 0.5:
+        cfg = add_knobs(rng, cfg)
+        if cfg["seekable"]:
+            cfg["cl"] = str(len(cfg["data"]))
     return cfg
 
 
@@ -1157,7 +1575,11 @@ def run(ctx):
 
     # ---- correspondence: model vs implementation on histories of access paths
     rng = ctx.sub_rng("corr")
-    groups = [("histories", corr_cases(ctx, rng, ctx.scale(2000, 12000), 48, ctx.scale(9, 14)), 250),
+    groups = [("histories", corr_cases(ctx, rng, ctx.scale(1200, 9000), 48, ctx.scale(9, 14)), 250),
+              ("configurations", corr_cases(ctx, ctx.sub_rng("corr-knobs"), ctx.scale(500, 3000), 48, ctx.scale(9, 14),
+                                            knobs=True), 250),
+              ("configurations-not-a-form", corr_cases(ctx, ctx.sub_rng("corr-noform"), ctx.scale(300, 1500), 48,
+                                                       ctx.scale(9, 14), knobs=True, form=False), 250),
               ("buffer-and-chunk-boundaries", corr_big_cases(ctx.sub_rng("corr-big"), ctx.scale(20, 48)), 1)]
     r2l = ctx.sub_rng("corr-two")
     two = []
@@ -1170,7 +1592,7 @@ def run(ctx):
     for i in bad[:6]:
         ctx.broken.append("correspondence two-live-requests: model and implementation disagree on %s" % json.dumps(two[i][2])[:1500])
     for name, cases, shard in groups:
-        bad = ctx.corr(name, IMPORTS, FN, cases, in_type=IN_TYPE, shard=shard)
+        bad = ctx.corr(name, IMPORTS, FN_NOFORM if name.endswith("not-a-form") else FN, cases, in_type=IN_TYPE, shard=shard)
         for i in bad[:6]:
             cfg, hist = unj(cases[i][2])
             via = cases[i][2].get("via")
@@ -1188,12 +1610,12 @@ def run(ctx):
     deep = 0
     for ci, cfg in enumerate(cfgs):
         # quick: depth 3 everywhere, depth 4 on the declared-length configurations with a small temp-file limit and
-        # on the terminated input; thorough: depth 4 everywhere, depth 5 on one
+        # on the terminated input; thorough: depth 4 everywhere
         if ctx.thorough:
-            d_here = 5 if (cfg["cl"] == "10" and cfg["limit"] == 2 and not cfg["seekable"] and cfg["term"] is None) else 4
+            d_here = 4        # (depth 5 is run on the stateful universe below)
         else:
             d_here = 4 if (cfg["cl"] == "10" and cfg["limit"] == 2 and not cfg["seekable"]) or \
-                (cfg["cl"] is None and cfg["term"]) else 3
+                (cfg["cl"] is None and cfg["term"] is True) else 3
         deep = max(deep, d_here)
         for d in range(1, d_here + 1):
             for hist in itertools.product(U, repeat=d):
@@ -1206,7 +1628,7 @@ def run(ctx):
 
     # ---- oracle 2: random histories incl. text/json setters and the other file methods of body_file
     r2 = ctx.sub_rng("oracle-random")
-    m = ctx.scale(40000, 300000)
+    m = ctx.scale(25000, 200000)
     for _ in range(m):
         cfg = rand_cfg(r2, 70)
         if cfg["seekable"]:
@@ -1221,7 +1643,7 @@ def run(ctx):
 
     # ---- oracle 3: bodies around the buffer size and the 65535 copy step, limits below/at/above
     r3 = ctx.sub_rng("oracle-big")
-    m = ctx.scale(1500, 10000)
+    m = ctx.scale(1500, 7000)
     for cfg, hist in big_cases(r3, m):
         res = oracle_history(cfg, hist)
         if res:
@@ -1240,7 +1662,7 @@ def run(ctx):
     # ---- oracle 5: ONE environ served through several Request objects (long-lived and brand-new wrappers), with the
     #      environ's flags flipped, wsgi.input replaced and the class-level temp-file limit changed mid-history
     r5 = ctx.sub_rng("oracle-stateful")
-    m = ctx.scale(30000, 250000)
+    m = ctx.scale(20000, 180000)
     for _ in range(m):
         cfg = consistent_cfg(r5, 60)
         hist = rand_shist(r5, cfg, r5.randrange(2, 13))
@@ -1251,7 +1673,7 @@ def run(ctx):
     ctx.oracle_count("stateful-random", m, m)
     SU = stateful_universe()
     cnt = 0
-    for ci, cfg in enumerate([c for c in cfgs if (c["cl"] in (None, "10") and c["limit"] in (2, 10240))][:ctx.scale(4, 6)]):
+    for ci, cfg in enumerate([c for c in cfgs if (c["cl"] in (None, "10") and c["limit"] in (2, 10240))][:ctx.scale(3, 6)]):
         sdepth = 5 if (ctx.thorough and ci < 1) else 4
         for d in range(1, sdepth + 1):
             for hist in itertools.product(SU, repeat=d):
@@ -1265,7 +1687,7 @@ def run(ctx):
     # ---- oracle 6: two independent requests alive at the same time in one process (module/class-level state):
     #      their histories interleaved, each must behave as if it were alone; one class shared, its limit flipped
     r6 = ctx.sub_rng("oracle-two")
-    m = ctx.scale(15000, 80000)
+    m = ctx.scale(10000, 80000)
     for _ in range(m):
         ca, cb = consistent_cfg(r6, 60), consistent_cfg(r6, 60)
         if r6.random() < 0.3:
@@ -1283,7 +1705,7 @@ def run(ctx):
     # ---- oracle 7: the same cases in a different order within this process (module-level caching would show)
     r7 = ctx.sub_rng("oracle-order")
     batch = []
-    for _ in range(ctx.scale(3000, 30000)):
+    for _ in range(ctx.scale(3000, 20000)):
         cfg = consistent_cfg(r7, 60)
         batch.append((cfg, rand_xhist(r7, cfg, r7.randrange(1, 9))))
     shuffled = list(batch)
@@ -1297,6 +1719,35 @@ def run(ctx):
                                                                         for c, h in prev[-3:] + [(cfg, hist)]]}, True, "order")
             prev.append((cfg, hist))
     ctx.oracle_count("order", 3 * len(batch), len(batch))
+
+    # ---- oracle 8: the ways of giving a request its body at construction (constructor keyword, Request.blank with
+    #      POST= bytes / str / dict / list / MultiDict, body=, environ=, BaseRequest, from_bytes / from_file)
+    r8 = ctx.sub_rng("oracle-shapes")
+    m = ctx.scale(4000, 60000)
+    for _ in range(m):
+        shape = r8.choice(SHAPES)
+        b = form_bytes(r8, r8.choice([0, 1, 5, 12, 40])) if r8.random() < 0.7 else rand_bytes(r8, r8.choice([0, 3, 20]))
+        hist = rand_shist(r8, {"data": b}, r8.randrange(1, 9))
+        via = rand_via(r8, len(hist))
+        res = oracle_shape(shape, b, hist, via)
+        if res:
+            ctx.fail(res[0], res[1], {"kind": "shape", "shape": shape, "body": b.hex(), "hist": jhist(hist), "via": via}, True, "shapes")
+    ctx.oracle_count("shapes", m, m)
+
+    # ---- oracle 9 (outside the model's domain): a wsgi.input whose read(n) returns fewer than n bytes before EOF
+    r9 = ctx.sub_rng("oracle-short-reads")
+    m = ctx.scale(4000, 60000)
+    for _ in range(m):
+        n = r9.choice([0, 1, 5, 30, 9000])
+        data = pattern(n + r9.choice([0, 4]))
+        cl = max(0, n + r9.choice([0, 0, 0, -1, 3]))
+        sizes = [r9.choice([1, 2, 3, 7, 100, 8192]) for _ in range(r9.randrange(0, 12))]
+        hist = [[r9.choice(["fread", "fread", "body", "sread", "copy"]), r9.choice([None, 0, 1, 2, 5, n, 8192])]
+                for _ in range(r9.randrange(1, 6))]
+        res = oracle_short_reads(data, cl, sizes, hist)
+        if res:
+            ctx.fail(res[0], res[1], {"kind": "short", "data": data.hex(), "cl": cl, "sizes": sizes, "hist": hist}, True, "short-reads")
+    ctx.oracle_count("short-reads", m, m)
 
     ctx.extra["rule"] = (
         "correspondence: random histories (<=%d steps) of body / body_file.read(k) / body_file_seekable.read(k) / copy / "
@@ -1324,7 +1775,8 @@ def run(ctx):
         "DisconnectionError (the consumed bytes cannot be recovered); this is what the specification machine says too",
         "call_application: the application is modelled as reading only a seekable (rewound) body; on a non-seekable "
         "input webob passes the environ through untouched",
-        "CONTENT_LENGTH texts are plain decimal integers (int() leniency is C12's subject)",
+        "CONTENT_LENGTH: the model takes the parsed value; the harness parses like descriptors.parse_int_safe (int() with "
+        "its leniency, anything else = absent) and the generators include int-typed, padded, signed and non-numeric texts",
         "webob.is_body_seekable is switched off mid-history only on a held body whose file is at position 0 (otherwise "
         "the private flag lies about the file); it is never switched on for a stream without seek()",
     ]
@@ -1350,6 +1802,11 @@ def replay(ctx, path):
         ca, ha = unj(case["a"])
         cb, hb = unj(case["b"])
         res = oracle_two(ca, ha, cb, hb, case["order"])
+    elif kind == "shape":
+        hist = [(i, o, bytes.fromhex(a) if o == "setbody" else a) for i, o, a in case["hist"]]
+        res = oracle_shape(case["shape"], bytes.fromhex(case["body"]), hist, case.get("via"))
+    elif kind == "short":
+        res = oracle_short_reads(bytes.fromhex(case["data"]), case["cl"], case["sizes"], [tuple(h) for h in case["hist"]])
     elif kind == "sequence":
         res = None
         for c in case["cases"]:
